@@ -43,6 +43,9 @@ def oracle(rng, tier):
         T = rng.uniform(290, 370)
         x = pv.Composition(p=gens.interior(rng), type=rng.choice(['weight', 'molar']))
         y = pv.Composition(p=gens.interior(rng), type='weight')
+        xi = pv.Composition(p=gens.fraction(rng), type=rng.choice(['weight', 'molar']))      # incl. exactly pure feeds
+        m_no_nrtl = pv.Mixture(name='x', first_component=m.first_component, second_component=m.second_component, uniquac_params=m.uniquac_params)
+        m_no_uq = pv.Mixture(name='x', first_component=m.first_component, second_component=m.second_component, nrtl_params=m.nrtl_params)
         Tp = rng.choice([0, 0.0, rng.uniform(150, T)])
         pp = rng.choice([0, 0.0, rng.uniform(0.0, 10.0), rng.uniform(0.0, 10.0)])
         ct = rng.choice(['NRTL', 'UNIQUAC'])
@@ -69,13 +72,16 @@ def oracle(rng, tier):
             'both:curve_from_fluxes': lambda: DiffusionCurve(mixture=m, membrane_name='o', feed_temperature=T, feed_compositions=[x],
                                                              partial_fluxes=[(0.5, 0.01)], permeate_temperature=Tp, permeate_pressure=pp),
             'incomplete:mixture_without_parameters': lambda: pv.Mixture(name='x', first_component=m.first_component, second_component=m.second_component),
-            'incomplete:nrtl_missing': lambda: get_partial_pressures(T, pv.Mixture(name='x', first_component=m.first_component, second_component=m.second_component,
-                                                                                    uniquac_params=m.uniquac_params), x, 'NRTL'),
-            'incomplete:uniquac_missing': lambda: calculate_activity_coefficients(T, pv.Mixture(name='x', first_component=m.first_component, second_component=m.second_component,
-                                                                                                 nrtl_params=m.nrtl_params), x, 'UNIQUAC'),
+            'incomplete:nrtl_missing': lambda: get_partial_pressures(T, m_no_nrtl, xi, 'NRTL'),
+            'incomplete:uniquac_missing': lambda: calculate_activity_coefficients(T, m_no_uq, xi, 'UNIQUAC'),
+            'incomplete:uniquac_missing_pp': lambda: get_partial_pressures(T, m_no_uq, xi, 'UNIQUAC'),
+            'incomplete:nrtl_missing_flux': lambda: pv.Pervaporation(mem, m_no_nrtl).calculate_partial_fluxes(T, xi, 5e-5, None, rng.choice([None, 0.5]), P1, P2, 'NRTL'),
+            'incomplete:uniquac_missing_flux': lambda: pv.Pervaporation(mem, m_no_uq).calculate_partial_fluxes(T, xi, 5e-5, None, None, P1, P2, 'UNIQUAC'),
+            'incomplete:nrtl_missing_curve': lambda: DiffusionCurve(mixture=m_no_nrtl, membrane_name='o', feed_temperature=T, feed_compositions=[xi],
+                                                                    partial_fluxes=[(0.5, 0.01)]),
             'incomplete:uniquac_constants_missing': lambda: calculate_activity_coefficients(
                 T, pv.Mixture(name='x', first_component=copy.copy(m.first_component).__class__(**{**{a.name: getattr(m.first_component, a.name) for a in m.first_component.__attrs_attrs__}, 'uniquac_constants': None}),
-                              second_component=m.second_component, nrtl_params=m.nrtl_params, uniquac_params=m.uniquac_params), x, 'UNIQUAC'),
+                              second_component=m.second_component, nrtl_params=m.nrtl_params, uniquac_params=m.uniquac_params), xi, 'UNIQUAC'),
             'incomplete:curve_with_neither': lambda: DiffusionCurve(mixture=m, membrane_name='o', feed_temperature=T, feed_compositions=[x]),
             'incomplete:single_experiment_without_ea': lambda: pv.Membrane(name='m', ideal_experiments=IdealExperiments(experiments=[
                 IdealExperiment(name='e', temperature=T + 7.0, component=m.first_component, permeance=P1)])).get_permeance(T, m.first_component),
@@ -84,7 +90,7 @@ def oracle(rng, tier):
         }
         name = rng.choice(sorted(entries))
         ok, detail = must_raise(entries[name])
-        yield {'kind': name, 'case': {'entry': name, 'mixture': m.name, 'T': T, 'Tp': Tp, 'pp': pp, 'model': ct, 'x': [x.p, x.type]},
+        yield {'kind': name, 'case': {'entry': name, 'mixture': m.name, 'T': T, 'Tp': Tp, 'pp': pp, 'model': ct, 'x': [x.p, x.type], 'x_incomplete': [xi.p, xi.type]},
                'ok': ok, 'detail': detail}
 
 
